@@ -288,6 +288,10 @@ def dlist_groups():
     for k, (fn, txt) in steps.items():
         G.append(Group('dlist.step%d' % k, ['C12'], 'S', S, 'h_step', enforce=None if k == 2 else fn, sources=src, defines=['-DVF_STEP=%d' % k],
                        what='ring primitive %s: %s; exact relinking, frame = the three nodes and size' % (fn, txt)))
+    for k, (fn, txt) in {1: ('cstl_dlist_concat', 'concat on ring neighbourhoods of 0, 1, 2 and >= 3 nodes each (unknown middle as sentinels, any size): splices exactly at the two heads, source left empty and usable, sizes add up, self-concat is a no-op'),
+                         2: ('cstl_dlist_swap', 'swap on ring neighbourhoods of 0, 1, 2 and >= 3 nodes each: first and last node re-pointed at the new head, empty rings become self-linked heads, sizes and offsets exchanged')}.items():
+        G.append(Group('dlist.step2.%s' % fn[11:], ['C12'], 'S', S, 'h_step2', sources=src, defines=['-DVF_STEP2=%d' % k], unwind=6, functions=[fn],
+                       what=txt, covers=['end']))
     for k, (h, txt, unw) in {1: ('h_b_basic', 'push/pop at both ends, insert/erase at every position, reverse, on every list of length 0..5', 16),
                              2: ('h_b_multi', 'concat/swap over all length pairs, self-concat, clear (+refill), foreach in both directions with every stop position, with and without removal of the visited element', 16),
                              3: ('h_b_sort', 'sort and find (both directions) for every assignment of keys {0,1,2} to lists of length 0..3 (thorough: 0..4): ordered, stable, permutation', 90)}.items():
